@@ -137,6 +137,8 @@ func decoy(v interface{}) interface{} {
 	return v
 }
 
+var brokenCache = map[string]string{}
+
 var compactCache = map[string]string{}
 
 var extraCalls int
@@ -322,6 +324,28 @@ func EvalText(text string, data map[string]interface{}) EvalOut {
 			}
 			if c := Eval(r3, context.Background(), q.Src.Expression).String(); c != a {
 				return EvalOut{Panic: fmt.Sprintf("%q evaluates to %s, but the same tokens without optional spaces, %q, to %s", text, a, ct, c)}
+			}
+		}
+		// Nor is the layout: the same tokens with a line break in front of every operator and closing
+		// token - where the grammar allows one - parse and evaluate to the same outcome.
+		bt, ok := brokenCache[text]
+		if !ok {
+			bt, _ = ref.BrokenText(text)
+			if len(brokenCache) < 1<<14 {
+				brokenCache[text] = bt
+			}
+		}
+		if bt != "" && bt != text {
+			q := Parse([]byte(bt))
+			if !q.OK() {
+				return EvalOut{Panic: fmt.Sprintf("%q is accepted, but the same tokens with a line break before every operator, %q, are rejected: %v %v", text, bt, q.Err, q.Panic)}
+			}
+			r4 := formula.NewRunner()
+			if data != nil {
+				r4.SetThis(data)
+			}
+			if c := Eval(r4, context.Background(), q.Src.Expression).String(); c != a {
+				return EvalOut{Panic: fmt.Sprintf("%q evaluates to %s, but the same tokens with a line break before every operator, %q, to %s", text, a, bt, c)}
 			}
 		}
 	}
